@@ -309,3 +309,37 @@ Qed.
 Example slice_old_refuted :
   exists root scanned rel, slice_old root (entry_path scanned rel) <> rel.
 Proof. exists [46], [100; 97; 116; 97], [97; 98]. vm_compute. discriminate. Qed.
+
+(* ---- '.' / '..' segments: legal names are fixed points of the URL normalisation *)
+Lemma legal_seg_not_dot : forall s, legal_seg s = true -> str_eqb s [46] = false /\ str_eqb s [46; 46] = false.
+Proof.
+  intros s H. unfold legal_seg in H. repeat (apply andb_true_iff in H; destruct H as [H ?]).
+  split; apply negb_true_iff; assumption.
+Qed.
+
+Lemma dot_normalize_from_legal : forall n acc, forallb legal_seg n = true -> dot_normalize_from acc n = rev acc ++ n.
+Proof.
+  induction n as [|s r IH]; intros acc H; cbn [dot_normalize_from].
+  - rewrite app_nil_r. reflexivity.
+  - cbn in H. apply andb_true_iff in H. destruct H as [Hs Hr].
+    destruct (legal_seg_not_dot s Hs) as [-> ->]. rewrite IH by exact Hr. cbn. rewrite <- app_assoc. reflexivity.
+Qed.
+
+Theorem dot_normalize_legal : forall n, legal_name n = true -> dot_normalize n = n.
+Proof.
+  intros n H. destruct n as [|s r]; [discriminate|]. cbn [legal_name] in H. apply andb_true_iff in H.
+  unfold dot_normalize. rewrite dot_normalize_from_legal; tauto.
+Qed.
+
+(* ---- witnesses for what is not true *)
+Definition tmp_witness : list lop :=
+  [(Upload [[122; 46; 116; 109; 112]] [1], [116; 46; 116; 109; 112]); (ListFiles ([], []), [])].
+Lemma local_tmp_suffix_refuted :
+  ~ Forall2 obs_equiv (run local_step tmp_witness []) (run (spec_step path_eqb seg_starts) (map fst tmp_witness) []).
+Proof.
+  intro H. vm_compute in H. inversion H as [|? ? ? ? _ H2]; subst. inversion H2 as [|? ? ? ? H3 _]; subst.
+  destruct H3 as [_ Hin]. destruct (proj2 (Hin [[122; 46; 116; 109; 112]]) (or_introl eq_refl)).
+Qed.
+
+Lemma dot_segments_refuted : exists n, dot_normalize n <> n.
+Proof. exists [[97]; [46; 46]; [98]]. vm_compute. discriminate. Qed.
